@@ -4,6 +4,21 @@ import zipfile
 import joblib
 
 
+def create_folder_with_file(folder, file_name, content):
+    """
+    creates folder (which must not exist) such that it contains file_name from the first moment it exists:
+    the folder is prepared under a temporary sibling name and renamed into place (rename is atomic), so
+    a process that is killed at any point never leaves folder behind without file_name
+    """
+    folder.parent.mkdir(parents=True, exist_ok=True)
+    tmp_folder = folder.with_name(f"{folder.name}.autocopy_tmp")
+    # the leftover of a killed attempt is reused
+    tmp_folder.mkdir(exist_ok=True)
+    with open(tmp_folder / file_name, "w") as f:
+        f.write(content)
+    os.rename(tmp_folder, folder)
+
+
 def folder_contains_mostly_zips(path):
     # check if subfolders are zips (allow files such as a README inside the folder)
     items = os.listdir(path)
